@@ -50,3 +50,110 @@ example : (toFile (.raises [[1, 2]]) true (some [9])).dest = some [9] := by deci
 example : (toFile (.returns [[1], [2]]) false none).dest = some [1, 2] := by decide
 
 end Pico.C11
+
+namespace Pico.C11
+open Pico.ToFile
+
+theorem get_set_self (s : Store) (p : String) (c : Bytes) : (Store.set s p c).get p = some c := by
+  simp [Store.get, Store.set]
+
+theorem get_set_ne (s : Store) (p q : String) (c : Bytes) (h : q ≠ p) : (Store.set s p c).get q = s.get q := by
+  have hpq : (p == q) = false := by
+    simp only [beq_eq_false_iff_ne, ne_eq]; exact fun e => h e.symm
+  simp only [Store.get, Store.set, List.find?_cons, hpq]
+  congr 1
+  induction s with
+  | nil => rfl
+  | cons a t ih =>
+    by_cases ha : a.1 = p
+    · have h1 : (a.1 == q) = false := by
+        simp only [beq_eq_false_iff_ne, ne_eq]; exact fun e => h (e.symm.trans ha)
+      simp [ha, hpq, ih]
+    · by_cases hq : a.1 = q
+      · simp [h, hq]
+      · simp [ha, hq, ih]
+
+theorem toFile_returns (ws : List Bytes) (l : Bool) (d : Option Bytes) :
+    (toFile (.returns ws) l d).ok = true ∧ (toFile (.returns ws) l d).dest = some ws.flatten := by
+  simp [toFile]
+
+theorem toFile_raises (ws : List Bytes) (l : Bool) (d : Option Bytes) :
+    (toFile (.raises ws) l d).ok = false ∧ (toFile (.raises ws) l d).dest = d := by
+  simp [toFile]
+
+theorem pgf_skip (ow : Bool) (c : CartArg) (rest : List CartArg) (s : Store) (err : Bool) (h : c.loads = false) :
+    processGameFiles ow (c :: rest) s err = processGameFiles ow rest s true := by
+  simp [processGameFiles, h]
+
+theorem pgf_returns (ow : Bool) (c : CartArg) (rest : List CartArg) (s : Store) (err : Bool) (ws : List Bytes)
+    (h : c.loads = true) (he : c.enc = .returns ws) :
+    processGameFiles ow (c :: rest) s err = processGameFiles ow rest (s.set (outName ow c) ws.flatten) err := by
+  simp [processGameFiles, h, he, toFile_returns]
+
+theorem pgf_raises (ow : Bool) (c : CartArg) (rest : List CartArg) (s : Store) (err : Bool) (ws : List Bytes)
+    (h : c.loads = true) (he : c.enc = .raises ws) :
+    processGameFiles ow (c :: rest) s err = (s, .raised) := by
+  simp [processGameFiles, h, he, toFile_raises]
+
+/-- **C11.cli_never_removes**: whatever carts a command line names and whichever of them fail, no file that existed before
+the command is missing afterwards. -/
+theorem cli_never_removes (ow : Bool) (cs : List CartArg) (s : Store) (err : Bool) (p : String) (h : (s.get p).isSome) :
+    ((processGameFiles ow cs s err).1.get p).isSome := by
+  induction cs generalizing s err with
+  | nil => simpa [processGameFiles] using h
+  | cons c rest ih =>
+    cases hl : c.loads with
+    | false => rw [pgf_skip ow c rest s err hl]; exact ih s true h
+    | true =>
+      cases he : c.enc with
+      | raises ws => rw [pgf_raises ow c rest s err ws hl he]; exact h
+      | returns ws =>
+        rw [pgf_returns ow c rest s err ws hl he]
+        apply ih
+        by_cases hq : p = outName ow c
+        · rw [hq, get_set_self]; rfl
+        · rw [get_set_ne _ _ _ _ hq]; exact h
+
+/-- **C11.cli_failure_keeps_everything_from_there**: when a cart's write raises, the store is exactly what the carts before
+it produced: the failing cart's destination — its own input with `--overwrite` — and everything else are untouched. -/
+theorem cli_failure_stops (ow : Bool) (pre : List CartArg) (c : CartArg) (post : List CartArg) (s : Store) (err : Bool) (ws : List Bytes)
+    (hpre : ∀ q ∈ pre, q.loads = false ∨ ∃ w, q.enc = .returns w) (hl : c.loads = true) (hc : c.enc = .raises ws) :
+    (processGameFiles ow (pre ++ c :: post) s err).2 = .raised ∧
+    (processGameFiles ow (pre ++ c :: post) s err).1 = (processGameFiles ow pre s err).1 := by
+  induction pre generalizing s err with
+  | nil =>
+    rw [List.nil_append, pgf_raises ow c post s err ws hl hc]
+    simp [processGameFiles]
+  | cons q rest ih =>
+    have hrest : ∀ q ∈ rest, q.loads = false ∨ ∃ w, q.enc = .returns w :=
+      fun x hx => hpre x (List.mem_cons_of_mem _ hx)
+    rw [List.cons_append]
+    cases hql : q.loads with
+    | false =>
+      rw [pgf_skip ow q _ s err hql, pgf_skip ow q _ s err hql]
+      exact ih s true hrest
+    | true =>
+      rcases hpre q (List.mem_cons_self ..) with h0 | ⟨w, hw⟩
+      · rw [hql] at h0; cases h0
+      · rw [pgf_returns ow q _ s err w hql hw, pgf_returns ow q _ s err w hql hw]
+        exact ih _ err hrest
+
+/-- **C11.cli_only_destinations_change**: a path that is not the output name of a loadable cart keeps its content. -/
+theorem cli_only_destinations_change (ow : Bool) (cs : List CartArg) (s : Store) (err : Bool) (p : String)
+    (hp : ∀ c ∈ cs, c.loads = true → outName ow c ≠ p) :
+    (processGameFiles ow cs s err).1.get p = s.get p := by
+  induction cs generalizing s err with
+  | nil => simp [processGameFiles]
+  | cons c rest ih =>
+    have hrest : ∀ c ∈ rest, c.loads = true → outName ow c ≠ p :=
+      fun x hx => hp x (List.mem_cons_of_mem _ hx)
+    cases hl : c.loads with
+    | false => rw [pgf_skip ow c rest s err hl]; exact ih s true hrest
+    | true =>
+      cases he : c.enc with
+      | raises ws => rw [pgf_raises ow c rest s err ws hl he]
+      | returns ws =>
+        rw [pgf_returns ow c rest s err ws hl he, ih _ err hrest]
+        exact get_set_ne _ _ _ _ (fun e => hp c (List.mem_cons_self ..) hl e.symm)
+
+end Pico.C11
